@@ -350,10 +350,11 @@ class SymmetryTranslator:
         for subset in largest_subset(symbols):
             if len(subset) <= 1:
                 continue
-            preds: set[Predicate] = set()
+            preds: set[tuple[Predicate, int]] = set()
             for lit in subset:
                 symbol = lit.atom.symbol
-                preds.add(Predicate(symbol.name, len(symbol.arguments)))
+                # the sign belongs to the group: p(X), not p(Y) is not symmetric in X and Y
+                preds.add((Predicate(symbol.name, len(symbol.arguments)), int(lit.sign)))
             if len(preds) == 1:
                 yield tuple(sorted(subset))
 
